@@ -56,6 +56,9 @@ def handleCalendar : List String → Option String
     pure (match buildListMtime res off mt nowt with
       | some s => encStr s ++ " " ++ encDate (parseLsDate s c us)
       | none => "out-of-domain")
+  | ["hour24", h12, pm] => do
+    let h ← decNat h12; let p ← decNat pm
+    pure (toString (hour24 h (p != 0)))
   | ["filemode", m] => do
     let m ← decNat m
     pure (encStr (fileMode m))
